@@ -1919,6 +1919,9 @@ def _check_scool(self, fid, order, exp, extra_cells=()):
                             errs.append("cell %s bins/%s is not the shared root dataset" % (k, col))
                     if not (g["chroms"] == f["chroms"]):
                         errs.append("cell %s chroms is not the shared root table" % k)
+                    if g["bins"] == f["bins"]:
+                        errs.append("cell %s: its bins GROUP is the root's group (extra bin columns could not "
+                                    "be kept per cell)" % k)
                     want_extra = set(exp[k].bin_extra)
                     got_extra = set(g["bins"].keys()) - {"chrom", "start", "end"}
                     if want_extra != got_extra:
